@@ -1187,6 +1187,7 @@ int streamCli(std::istream& in)
     const std::string& exp = t[2];
     std::cout << line << " => rc=" << rc;
     if (exp == "exp=other") { std::cout << " other" << (rc == 0 ? "" : " ORACLE-MISMATCH exit status 0 expected") << "\n"; continue; }
+    if (exp == "exp=help1") { std::cout << " other" << (rc == 1 ? "" : " ORACLE-MISMATCH exit status 1 expected (no arguments: usage)") << "\n"; continue; }
     size_t lines = std::count(text.begin(), text.end(), '\n');
     std::string first = "-", last = "-";
     if (!text.empty())
